@@ -24,6 +24,41 @@ INSTR = re.compile(r"^\s*(?:(-?\d+):)?\s*(-->)?\s*(>>)?\s*(\d+) (?:(\|[0-9a-f ]*
 EXC_ROW = re.compile(r"^  \d+ to -?\d+ -> \d+ \[\d+\]( lasti)?$")
 
 
+class capture_stdout(object):
+    """everything written to standard output while active: through sys.stdout AND straight to file descriptor 1 (a stream
+    object captured at import time, e.g. as a default argument, bypasses a replaced sys.stdout)"""
+
+    def __enter__(self):
+        import tempfile
+        self.py = io.StringIO()
+        self.cm = contextlib.redirect_stdout(self.py)
+        try:
+            sys.__stdout__.flush()
+        except Exception:
+            pass
+        self.saved = os.dup(1)
+        self.tmp = tempfile.TemporaryFile()
+        os.dup2(self.tmp.fileno(), 1)
+        self.cm.__enter__()
+        return self
+
+    def __exit__(self, *a):
+        self.cm.__exit__(*a)
+        try:
+            sys.__stdout__.flush()
+        except Exception:
+            pass
+        os.dup2(self.saved, 1)
+        os.close(self.saved)
+        self.tmp.seek(0)
+        self.raw = self.tmp.read().decode("utf-8", "replace")
+        self.tmp.close()
+        return False
+
+    def getvalue(self):
+        return self.py.getvalue() + getattr(self, "raw", "")
+
+
 def split_blocks(text):
     """[(header lines, body lines)] per code object of a classic/bytes listing"""
     lines = text.split("\n")
@@ -185,7 +220,11 @@ class C12:
                     ref = {"reject": "reference-dis-cannot-render"}
                 k = "asm"
             elif k == "prog":
-                ref = ctx.pool.ref(v).call("compile", src=case["src"], dis=True, max_code=2400)
+                # the source is put where co_filename points, so that the show_source option has something to show
+                srcpath = os.path.join(ctx.scratch, "prog_src.py")
+                with open(srcpath, "wb") as f:
+                    f.write(case["src"].encode("utf-8"))
+                ref = ctx.pool.ref(v).call("compile", src=case["src"], dis=True, max_code=2400, filename=srcpath)
             elif k == "asm":
                 ref = self.pp.reference(case, ctx)
             else:
@@ -220,9 +259,9 @@ class C12:
         # stack-simulating extended formats (and xasm) are only exercised on compiler output
         for fmt in (FORMATS if k != "asm" else ["classic", "bytes", "header"]):
             out = io.StringIO()
-            cap_out, cap_err = io.StringIO(), io.StringIO()
+            cap_out = capture_stdout()
             try:
-                with contextlib.redirect_stdout(cap_out):
+                with cap_out:
                     x.disasm.disassemble_file(path, out, fmt)
                 texts[fmt] = out.getvalue()
             except Exception as e:
@@ -232,11 +271,32 @@ class C12:
                 continue
             if cap_out.getvalue():
                 res.fail("C12|%s|stdout-noise" % fmt, "%s -F %s wrote to sys.stdout: %r" % (label, fmt, cap_out.getvalue()[:200]))
+        show_cls = []
+        if case.get("k") == "prog" and "classic" in texts:
+            # show_source=True only ADDS '# <source line>' comment lines to the listing, and writes them to the same stream
+            out = io.StringIO()
+            cap_out = capture_stdout()
+            try:
+                with cap_out:
+                    x.disasm.disassemble_file(path, out, "classic", show_source=True)
+                plain = [ln for ln in out.getvalue().split("\n") if not re.match(r"^ {13}# ", ln)]
+                shown = sum(1 for ln in out.getvalue().split("\n") if re.match(r"^ {13}# ", ln))
+                show_cls.append("show_source:%s" % ("lines-shown" if shown else "nothing-shown"))
+                if cap_out.getvalue():
+                    res.fail("C12|show_source|stdout-noise", "%s with show_source=True wrote to sys.stdout: %r" % (label, cap_out.getvalue()[:200]))
+                elif norm("\n".join(plain)) != norm(texts["classic"]):
+                    a, b = norm("\n".join(plain)).split("\n"), norm(texts["classic"]).split("\n")
+                    k2 = next((i for i in range(min(len(a), len(b))) if a[i] != b[i]), min(len(a), len(b)))
+                    res.fail("C12|show_source|listing-differs", "%s: apart from its '# source' lines the show_source listing differs from the plain one "
+                             "at line %d: %r vs %r" % (label, k2, a[k2:k2 + 1], b[k2:k2 + 1]))
+            except Exception as e:
+                tb = traceback.format_exc()
+                res.fail("C12|show_source|raised|%s|%s" % (type(e).__name__, xdis_frame(tb)), "%s show_source=True raised %s: %s" % (label, type(e).__name__, e))
         njt = sum(1 for c in d["dis"] for i in c["instrs"] if i["j"])
         res.nontrivial = len(d["dis"]) >= 2 and njt >= 1
         res.nt_keys = [[label if k not in ("prog", "asm") else (case.get("src") or case.get("items")), f] for f in texts] if res.nontrivial else []
         res.evals = len(FORMATS)
-        res.classes = ["version:" + vs, "source:" + k]
+        res.classes = ["version:" + vs, "source:" + k] + show_cls
         res.sample = {"file": label, "version": vs, "code_objects": len(d["dis"]), "formats_ok": sorted(texts)}
         refdis = ref.get("dis") if k in ("prog", "asm") else None
         for fmt in ("classic", "bytes"):
